@@ -449,3 +449,147 @@ Proof.
   - left. vm_compute. reflexivity.
   - right. apply finish_snake_valid; [discriminate | rewrite <- E; apply method_core_chars].
 Qed.
+
+(* ================================================================= sanitize_module_name *)
+Lemma join_us_chars : forall (ws : list str),
+  (forall w, In w ws -> forallb is_ident_char w = true) -> forallb is_ident_char (join [95] ws) = true.
+Proof.
+  intros [|w ws] H; [reflexivity|]. unfold join. apply forallb_app_iff. split.
+  - apply H. left. reflexivity.
+  - apply forallb_concat. intros l Hl. apply in_map_iff in Hl. destruct Hl as [y [<- Hy]].
+    simpl. apply H. right. exact Hy.
+Qed.
+
+Lemma join_nonempty : forall sep w ws, w <> [] -> join sep (w :: ws) <> [].
+Proof. intros sep [|c w] ws H; [congruence|]. discriminate. Qed.
+
+Lemma module_of_tokens_valid : forall ws,
+  ws <> [] -> Forall good_word ws -> valid_name (module_of_tokens ws) = true.
+Proof.
+  intros ws Hne Hg. unfold module_of_tokens. rewrite (filter_nonempty_good ws Hg).
+  apply finish_snake_valid.
+  - destruct ws as [|w ws]; [congruence|]. simpl map. apply join_nonempty.
+    inversion Hg as [|? ? [Hw _] _]; subst. destruct w; [congruence | discriminate].
+  - apply join_us_chars. intros w Hw. apply in_map_iff in Hw. destruct Hw as [w0 [<- Hw0]].
+    rewrite Forall_forall in Hg. destruct (Hg w0 Hw0) as [_ Hal].
+    eapply forallb_map_imp; [|exact Hal]. intros x Hx. apply is_alnum_ident_char, lower_ascii_alnum, Hx.
+Qed.
+
+Section OracleFree.
+  (* ANY behaviour of the Unicode database on non-ASCII code points *)
+  Variables (u_word : N -> bool) (u_lower u_upper u_title : N -> str) (u_isdigit u_ign u_cased : N -> bool).
+
+  Lemma module_name_tok_path : forall s, tokens s <> [] ->
+    module_name u_word u_lower u_isdigit u_ign u_cased s = module_name_tok s.
+  Proof. intros s H. unfold module_name, module_name_tok. destruct (tokens s); [congruence | reflexivity]. Qed.
+
+  (* F20c excluded: with an ASCII letter or digit in the name the module name is valid, whatever the oracles *)
+  Theorem module_name_valid_partial : forall s, has_alnum s = true ->
+    valid_name (module_name u_word u_lower u_isdigit u_ign u_cased s) = true.
+  Proof.
+    intros s H. rewrite module_name_tok_path by (apply tokens_nonempty, H).
+    apply module_of_tokens_valid; [apply tokens_nonempty, H | apply tokens_good].
+  Qed.
+
+  (* ================================================================= enum member names *)
+  Lemma member_char_ident : forall c, is_member_char c = true -> is_ident_char c = true.
+  Proof. intros c. unfold is_member_char, is_ident_char, is_alnum, is_alpha, is_us. lia. Qed.
+  Lemma member_char_not_lower : forall c, is_member_char c = true -> is_lower c = false.
+  Proof. intros c. unfold is_member_char, is_upper, is_lower, is_digit, is_us. lia. Qed.
+  Lemma member_char_upper_fix : forall c, is_member_char c = true -> upper_ascii c = c.
+  Proof. intros c H. unfold upper_ascii. rewrite (member_char_not_lower c H). reflexivity. Qed.
+  Lemma upper_ascii_member : forall c, is_alnum c = true -> is_member_char (upper_ascii c) = true.
+  Proof.
+    intros c. unfold is_member_char, upper_ascii, is_alnum, is_alpha, is_upper, is_lower, is_digit, is_us.
+    destruct ((97 <=? c) && (c <=? 122)) eqn:E; lia.
+  Qed.
+
+  Definition member_str (n : str) : Prop := n <> [] /\ forallb is_member_char n = true.
+
+  Lemma member_str_no_kw : forall n, forallb is_member_char n = true -> is_kw n = false.
+  Proof.
+    intros n H. apply (not_kw_of_table (fun k => negb (existsb is_lower k))).
+    - rewrite <- kw_table_has_lower. apply forallb_ext. intro k. rewrite negb_involutive. reflexivity.
+    - apply negb_true_iff. destruct (existsb is_lower n) eqn:E; [|reflexivity].
+      apply existsb_exists in E. destruct E as [c [Hin Hc]]. rewrite forallb_forall in H.
+      rewrite (member_char_not_lower c (H c Hin)) in Hc. discriminate.
+  Qed.
+
+  Lemma member_map_upper : forall n, forallb is_member_char n = true -> map upper_ascii n = n.
+  Proof.
+    induction n as [|c n IH]; intro H; [reflexivity|]. simpl in *. apply andb_true_iff in H. destruct H as [H1 H2].
+    rewrite (member_char_upper_fix c H1), IH by exact H2. reflexivity.
+  Qed.
+
+  (* the tail of both namers: keyword suffix, start check, final shape check *)
+  Definition member_tail (pre : str) (n1 : str) : option str :=
+    let n2 := if is_kw (map lower_ascii n1) then n1 ++ [95] else n1 in
+    let n3 := if starts_upper_or_us n2 then n2 else pre ++ n2 in
+    if nonempty n3 && member_shape n3 then Some n3 else None.
+
+  Lemma member_tail_valid : forall pre n1,
+    member_str pre -> starts_upper_or_us pre = true -> member_str n1 ->
+    exists n, member_tail pre n1 = Some n /\ valid_name n = true /\ member_str n.
+  Proof.
+    intros pre n1 [Hpne Hp] Hps [Hne H1]. unfold member_tail.
+    set (n2 := if is_kw (map lower_ascii n1) then n1 ++ [95] else n1).
+    assert (H2 : member_str n2).
+    { subst n2. destruct (is_kw (map lower_ascii n1)).
+      - split; [destruct n1; discriminate | apply forallb_app_iff; split; [exact H1 | reflexivity]].
+      - split; assumption. }
+    set (n3 := if starts_upper_or_us n2 then n2 else pre ++ n2).
+    assert (H3 : member_str n3 /\ starts_upper_or_us n3 = true).
+    { subst n3. destruct (starts_upper_or_us n2) eqn:E.
+      - split; [exact H2 | exact E].
+      - split.
+        + split; [destruct pre; [congruence | discriminate] | apply forallb_app_iff; split; [exact Hp | exact (proj2 H2)]].
+        + destruct pre; [congruence | exact Hps]. }
+    destruct H3 as [[H3ne H3] H3s].
+    assert (Hid : is_ident n3 = true).
+    { destruct n3 as [|c r]; [congruence|]. simpl in H3. apply andb_true_iff in H3. destruct H3 as [Hc Hr].
+      apply is_ident_of_chars.
+      - simpl in H3s. rewrite (member_char_upper_fix c Hc) in H3s.
+        unfold is_ident_start, is_alpha. unfold is_us in H3s. destruct (is_upper c); [reflexivity|].
+        simpl in *. rewrite H3s. apply orb_true_r.
+      - eapply forallb_imp; [apply member_char_ident | exact Hr]. }
+    exists n3. split; [|split].
+    - unfold member_shape. rewrite (member_map_upper n3 H3), Hid.
+      destruct n3; [congruence | reflexivity].
+    - unfold valid_name. rewrite Hid, (member_str_no_kw n3 H3). reflexivity.
+    - split; assumption.
+  Qed.
+
+  Lemma s_member_ok : member_str s_member_ /\ starts_upper_or_us s_member_ = true.
+  Proof. split; [split; [discriminate | vm_compute; reflexivity] | vm_compute; reflexivity]. Qed.
+  Lemma s_member_empty_ok : member_str s_member_empty.
+  Proof. split; [discriminate | vm_compute; reflexivity]. Qed.
+
+  Lemma filter_member_str : forall l, filter is_member_char l <> [] -> member_str (filter is_member_char l).
+  Proof.
+    intros l H. split; [exact H|]. apply forallb_forall. intros x Hx. apply filter_In in Hx. tauto.
+  Qed.
+
+  (* total and valid for EVERY string and EVERY behaviour of str.upper on non-ASCII code points *)
+  Theorem enum_member_str_valid : forall v,
+    exists n, enum_member_str u_upper v = Some n /\ valid_name n = true.
+  Proof.
+    intro v. unfold enum_member_str.
+    set (san := filter is_member_char _).
+    match goal with |- exists n, (let n2 := if is_kw (map lower_ascii ?N1) then _ else _ in _) = _ /\ _ =>
+      set (n1 := N1) end.
+    assert (H1 : member_str n1).
+    { subst n1. destruct san as [|c r] eqn:Es.
+      - destruct (filter is_alnum v) as [|a al] eqn:Ea; [exact s_member_empty_ok|].
+        assert (Hm : member_str (s_member_ ++ map upper_ascii (a :: al))).
+        { split; [discriminate|]. apply forallb_app_iff. split; [exact (proj2 (proj1 s_member_ok))|].
+          apply forallb_forall. intros x Hx. apply in_map_iff in Hx. destruct Hx as [y [<- Hy]].
+          apply upper_ascii_member. rewrite <- Ea in Hy. apply filter_In in Hy. tauto. }
+        destruct (starts_digit (s_member_ ++ map upper_ascii (a :: al))); [|exact Hm].
+        split; [discriminate|]. apply forallb_app_iff. split; [exact (proj2 (proj1 s_member_ok)) | exact (proj2 Hm)].
+      - assert (Hs : member_str (c :: r)) by (rewrite <- Es; apply filter_member_str; rewrite Es; discriminate).
+        destruct (starts_digit (c :: r)); [|exact Hs].
+        split; [discriminate|]. apply forallb_app_iff. split; [exact (proj2 (proj1 s_member_ok)) | exact (proj2 Hs)]. }
+    destruct (member_tail_valid s_member_ n1 (proj1 s_member_ok) (proj2 s_member_ok) H1) as [n [E [Hv _]]].
+    exists n. split; [exact E | exact Hv].
+  Qed.
+End OracleFree.
